@@ -399,6 +399,9 @@ def main(modname, tier, replay=None):
     # 3. generated search
     b = dict(check.budgets[tier])
     scale = float(os.environ.get('VERIF_SCALE', '1'))
+    if tier == 'quick' and getattr(check, 'quick_boost', True):
+        # the per-check budgets were sized for 4 processes; the sandbox has 16 cores
+        b['procs'], b['examples'] = int(b['procs']) * 2, int(b['examples'] * 2.5)
     procs = max(1, min(int(b['procs']), os.cpu_count() or 1))
     per = max(1, int(b['examples'] * scale / procs)) if b['examples'] else 0
     jobs = [(modname, tier, seed, i, procs, per) for i in range(procs)]
